@@ -9,9 +9,17 @@
    clock readings (arguments of [ArriveCheck], [TtlFire], [TtlScan]) and all
    settings [c].  [var c] says which tree is meant: [fixed] = the tree with
    fix-F-C06a/b/c/d applied (what the correspondence suites run), [as_found] = the
-   tree before them.  Statements without a hypothesis on [var c] hold for both. *)
+   tree before them.  Statements without a hypothesis on [var c] hold for both.
+
+   Sections: quota; one signal; drain; order at a pick; bound; VERDICTS (the
+   [verdict] field: given exactly when Execute returned, written once);
+   EXISTENCE (a verdict is reachable from every reachable state); LIVENESS under
+   an explicit fairness hypothesis ([serves]); ADMISSIONS (every admission goes
+   back to a pick; no overtaking, on traces); no early time-out; counter bound
+   under the exact side condition; model vs suites vs code granularity; the full
+   property and the refutations for the trees lacking a fix. *)
 From Coq Require Import List ZArith Bool Lia.
-From Verif Require Import C06.Model C06.Proofs.
+From Verif Require Import C06.Model C06.Proofs C06.Liveness C06.Bridge.
 Import ListNotations.
 Open Scope Z_scope.
 
@@ -136,6 +144,21 @@ Example C06_nobody_left_after_drain_ex :
   drained s = true /\ watch s = [1] /\ dones (info s 1) = 1 /\ verdict (info s 2) = Some false.
 Proof. vm_compute. auto. Qed.
 
+(* ... and an arrival that was parked between its slot check and its
+   registration when the drain ran is rejected at its registration (it never
+   enters the watch list). *)
+Theorem C06_arrival_rejected_after_drain : forall c sch r,
+  closed_after_drain (var c) = true ->
+  let s := run c init sch in
+  drained s = true -> pc (info s r) = PChecked ->
+  verdict (info (step c s (ArriveRegister r)) r) = Some false /\
+  watch (step c s (ArriveRegister r)) = watch s.
+Proof.
+  intros c sch r Hc s Hd Hp. cbn [step]. unfold arrive_register. rewrite Hp, Hc, Hd.
+  cbn [andb]. rewrite orb_true_r. cbn. rewrite upd_same. cbn. auto.
+Qed.
+Print Assumptions C06_arrival_rejected_after_drain.
+
 (* ---------------------------------------------------------------- order *)
 
 (* Whatever the tree: the request the loop takes next (head of the queue that
@@ -200,14 +223,417 @@ Example C06_bound_when_arrival_atomic_ex :
   verdict (info (run c init sch) 2) = Some false.
 Proof. cbn zeta. split; [|vm_compute; auto]. cbn. repeat split; right; reflexivity. Qed.
 
+(* The watcher's counter IS the number of registered requests, and it — not
+   only the number of waiters that have not returned — stays within the bound
+   (stronger than [waiting <=]: a returned request keeps its slot until its
+   removal).  Side condition = the EXACT one for a tree without fix F-C06b: an
+   arrival passes its slot check only while the slots already promised to
+   arrivals between check and registration leave one free ([slot_pre]);
+   [arrival_pre] of the theorem above is a special case of it, and with atomic
+   registration it is vacuous. *)
+Theorem C06_count_bound_when_slots_reserved : forall c sch,
+  trace_ok c (slot_pre c) init sch ->
+  let s := run c init sch in
+  count s = Z.of_nat (length (watch s)) /\ count s <= Z.max 0 (qmax c) /\
+  waiting s <= Z.max 0 (qmax c).
+Proof.
+  intros c sch H s. destruct (AF_run_slot c sch H) as [HA HF]. fold s in HA, HF.
+  split; [apply (A_count s HA)|]. split; [apply (count_bound_of_InvF c s HF)|].
+  apply (bound_of_InvF c); assumption.
+Qed.
+Print Assumptions C06_count_bound_when_slots_reserved.
+
+Example C06_count_bound_when_slots_reserved_ex :
+  (* queue_size 2, tree as found: two arrivals overlap between check and
+     registration — not allowed by [arrival_pre], allowed by [slot_pre] *)
+  let c := {| qmax := 2; smax := -1; ttl := 10; var := as_found |} in
+  let sch := [ArriveCheck 1 0 0; ArriveCheck 2 0 0; ArriveRegister 1; ArriveRegister 2;
+              ArriveCheck 3 0 0] in
+  trace_ok c (slot_pre c) init sch /\ ~ trace_ok c (arrival_pre c) init sch /\
+  count (run c init sch) = 2 /\ verdict (info (run c init sch) 3) = Some false.
+Proof.
+  cbn zeta. split; [|split; [|vm_compute; auto]].
+  - cbn. repeat split; right; cbn; auto; lia.
+  - cbn. intros (_ & [H|H] & _); discriminate.
+Qed.
+
+(* ================================================================ verdicts *)
+
+(* "Gets a verdict" is a statement about the [verdict] field — what Execute
+   returned — not only about the number of WaitGroup signals.  In every
+   reachable state of every tree: a request has a verdict exactly when its
+   Execute call has returned (waiter returned, or rejected at once / removed). *)
+Theorem C06_verdict_iff_returned : forall c sch r,
+  let s := run c init sch in
+  verdict (info s r) <> None <-> (pc (info s r) = PReturned \/ pc (info s r) = PGone).
+Proof.
+  intros c sch r s. pose proof (InvV_run c sch r) as HV. fold s in HV. split.
+  - intros H. destruct (pc (info s r)) eqn:E; auto; exfalso; apply H, HV; cbn; lia.
+  - intros [E|E] H; apply HV in H; rewrite E in H; cbn in H; lia.
+Qed.
+Print Assumptions C06_verdict_iff_returned.
+
+(* At most one verdict: a verdict, once given, is never changed by any later
+   step of any goroutine (every tree, every continuation). *)
+Theorem C06_verdict_written_once : forall c sch sch' r v,
+  verdict (info (run c init sch) r) = Some v ->
+  verdict (info (run c init (sch ++ sch')) r) = Some v.
+Proof.
+  intros c sch sch' r v H. rewrite run_app. apply verdict_stable_run; [apply InvV_run|exact H].
+Qed.
+Print Assumptions C06_verdict_written_once.
+
+(* A signal releases the waiter: once the request has a signal, the return of
+   Wait() is enabled and writes the verdict — allowed exactly when the result
+   is "success". *)
+Theorem C06_signal_enables_verdict : forall c sch r,
+  let s := run c init sch in
+  pc (info s r) = PWaiting -> 1 <= dones (info s r) ->
+  verdict (info (step c s (WaiterReturn r)) r) =
+    Some (match res (info s r) with Success => true | _ => false end).
+Proof. intros c sch r s Hp Hd. cbn [step]. apply waiter_return_verdict; assumption. Qed.
+Print Assumptions C06_signal_enables_verdict.
+
+Example C06_verdict_ex :
+  let c := {| qmax := 1; smax := -1; ttl := 10; var := fixed |} in
+  let s := run c init [ArriveCheck 1 0 0; ArriveRegister 1; ArrivePush 1; ArriveCheck 2 0 0;
+                       TickPop; TickDecide true] in
+  pc (info s 1) = PWaiting /\ dones (info s 1) = 1 /\ verdict (info s 1) = None /\
+  verdict (info (step c s (WaiterReturn 1)) 1) = Some true /\
+  verdict (info s 2) = Some false /\ pc (info s 2) = PGone /\
+  verdict (info (run c s [WaiterReturn 1; Remove 1; TtlScan 100; Drain]) 1) = Some true.
+Proof. vm_compute. repeat split; reflexivity. Qed.
+
+(* ================================================================ existence of a verdict *)
+
+(* No request can be stranded: from EVERY reachable state of EVERY tree, for
+   every request that has reached the processor, the five steps of [finish] —
+   the rest of its own arrival, the quota's answer (either one) to the loop,
+   one look of the TTL watcher after the expiry, the return of Wait() — lead to
+   a verdict.  (Steps already taken are no-ops.) *)
+Theorem C06_verdict_reachable : forall c sch r b,
+  let s := run c init sch in
+  pc (info s r) <> PNew ->
+  verdict (info (run c s (finish r (expire (info s r)) b)) r) <> None.
+Proof.
+  intros c sch r b s Hp. apply verdict_reachable; [apply Inv_run|apply InvV_run|exact Hp].
+Qed.
+Print Assumptions C06_verdict_reachable.
+
+(* ... and the same with the shutdown in place of the TTL watcher, for a tree
+   that closes registration at the drain (fix F-C06d): whether the drain has
+   already run or not. *)
+Theorem C06_verdict_reachable_by_drain : forall c sch r b,
+  closed_after_drain (var c) = true ->
+  let s := run c init sch in
+  pc (info s r) <> PNew ->
+  verdict (info (run c s (finish_drain r b)) r) <> None.
+Proof.
+  intros c sch r b Hc s Hp.
+  apply verdict_reachable_by_drain; [exact Hc|apply Inv_run|apply InvV_run|apply BG_run|exact Hp].
+Qed.
+Print Assumptions C06_verdict_reachable_by_drain.
+
+Example C06_verdict_reachable_ex :
+  let c := {| qmax := 2; smax := -1; ttl := 10; var := fixed |} in
+  (* r1 held by the loop, r2 parked between slot check and registration *)
+  let s := run c init [ArriveCheck 1 0 0; ArriveRegister 1; ArrivePush 1; TickPop; ArriveCheck 2 0 5] in
+  held s = Some 1 /\ pc (info s 2) = PChecked /\
+  verdict (info (run c s (finish 1 (expire (info s 1)) false)) 1) = Some false /\
+  verdict (info (run c s (finish 1 (expire (info s 1)) true)) 1) = Some true /\
+  verdict (info (run c s (finish 2 (expire (info s 2)) false)) 2) = Some false /\
+  verdict (info (run c s (finish_drain 2 true)) 2) = Some false.
+Proof. vm_compute. repeat split; reflexivity. Qed.
+
+(* ================================================================ liveness under fairness *)
+
+(* The fairness hypothesis, explicit: after r was registered, the schedule
+   contains an action that SERVES r ([serves], decidable): a step of the TTL
+   watcher (whole scan, or the single look [TtlFire]) at an instant after r's
+   expiry taken while the loop does not hold r, or an effective drain.  ONE such
+   action is enough and its effect is permanent: r has exactly one signal in
+   every later state, whatever else happens.  There is no escape clause: the
+   case "the loop holds r at the scan" is excluded by the hypothesis, not by the
+   conclusion.  (In the code the watcher re-arms itself with a zero delay as
+   long as an expired request is in its map, and the loop holds a request only
+   for the duration of one quota call.) *)
+Theorem C06_liveness_fair_signal : forall c sch r sch1 a sch2,
+  let s := run c init sch in
+  In r (watch s) -> serves (run c s sch1) a r = true ->
+  1 <= dones (info (run c s (sch1 ++ a :: sch2)) r) /\
+  (gated_drain (var c) = true -> dones (info (run c s (sch1 ++ a :: sch2)) r) = 1).
+Proof.
+  intros c sch r sch1 a sch2 s Hw Hs.
+  pose proof (fair_signal c s r sch1 a sch2 (Inv_run c sch) Hw Hs) as H1. split; [exact H1|].
+  intros Hg. unfold s in *. rewrite <- run_app in *.
+  pose proof (proj2 (proj2 (ABE_run c (sch ++ sch1 ++ a :: sch2) (gated_pre c _ init Hg))) r). lia.
+Qed.
+Print Assumptions C06_liveness_fair_signal.
+
+(* ... and if r's own goroutine is not starved either (its push, and the
+   return of its Wait() after the serving action, are in the schedule), r HAS
+   ITS VERDICT at the end — and keeps it (C06_verdict_written_once). *)
+Theorem C06_liveness_fair_verdict : forall c sch r sch1 a sch2 post,
+  let s := run c init sch in
+  In r (watch s) -> serves (run c s sch1) a r = true ->
+  In (ArrivePush r) (sch1 ++ a :: sch2) \/ pushed_pc (info s r) ->
+  exists v, verdict (info (run c s ((sch1 ++ a :: sch2) ++ WaiterReturn r :: post)) r) = Some v.
+Proof.
+  intros c sch r sch1 a sch2 post s Hw Hs Hp.
+  assert (Hp' : In (ArrivePush r) (sch1 ++ a :: sch2) \/ 3 <= pc_rank (pc (info s r))).
+  { destruct Hp as [Hp|[E|E]]; [now left|right; rewrite E; cbn; lia..]. }
+  pose proof (fair_verdict c s r sch1 a sch2 post (Inv_run c sch) (InvV_run c sch) Hw Hs Hp') as H.
+  destruct (verdict (info (run c s ((sch1 ++ a :: sch2) ++ WaiterReturn r :: post)) r)) as [v|];
+    [exists v; reflexivity|congruence].
+Qed.
+Print Assumptions C06_liveness_fair_verdict.
+
+(* A purely syntactic instance of the fairness hypothesis: a scan after the
+   expiry that follows a decision of the loop with no TickPop in between (the
+   loop is between two iterations). *)
+Theorem C06_liveness_scan_when_loop_idle : forall c sch1 now sch2 r,
+  gated_drain (var c) = true ->
+  idle_after true sch1 = true ->
+  In r (watch (run c init sch1)) -> expire (info (run c init sch1) r) < now ->
+  dones (info (run c init (sch1 ++ TtlScan now :: sch2)) r) = 1.
+Proof.
+  intros c sch1 now sch2 r Hg Hi Hw He.
+  pose proof (idle_after_held c sch1 init true (fun _ => eq_refl) Hi) as Hh.
+  destruct (C06_liveness_fair_signal c sch1 r [] (TtlScan now) sch2 Hw) as [_ H].
+  - cbn [run fold_left serves]. apply andb_true_iff. split; [apply Z.ltb_lt; exact He|].
+    unfold held_is. rewrite Hh. reflexivity.
+  - cbn [app] in H. rewrite <- run_app in H. apply H. exact Hg.
+Qed.
+Print Assumptions C06_liveness_scan_when_loop_idle.
+
+(* The hypothesis is satisfiable and it is needed: r1 expires at 10; a scan at
+   100 taken while the loop holds r1 does not serve it (and leaves it
+   unsignalled after the quota's refusal); the next scan, loop idle, does. *)
+Example C06_liveness_ex :
+  let c := {| qmax := 2; smax := -1; ttl := 10; var := fixed |} in
+  let arr := [ArriveCheck 1 0 0; ArriveRegister 1; ArrivePush 1] in
+  let s := run c init arr in
+  In 1 (watch s) /\
+  serves (run c s [TickPop]) (TtlScan 100) 1 = false /\
+  dones (info (run c s [TickPop; TtlScan 100; TickDecide false]) 1) = 0 /\
+  serves (run c s [TickPop; TtlScan 100; TickDecide false]) (TtlScan 101) 1 = true /\
+  idle_after true (arr ++ [TickPop; TtlScan 100; TickDecide false]) = true /\
+  dones (info (run c s ([TickPop; TtlScan 100; TickDecide false] ++ TtlScan 101 :: [TickPop; TickDecide true])) 1) = 1 /\
+  verdict (info (run c s (([TickPop; TtlScan 100; TickDecide false] ++ TtlScan 101 :: [TickPop]) ++
+                          WaiterReturn 1 :: [TickDecide true])) 1) = Some false /\
+  serves s (TtlFire 11 1) 1 = true /\ serves s (TtlFire 10 1) 1 = false /\ serves s Drain 1 = true.
+Proof. vm_compute. repeat split; auto. Qed.
+
+(* ================================================================ admissions, not only picks *)
+
+(* Every ADMISSION (an allowed verdict; more generally membership in [admits])
+   goes back to a pick: the schedule splits as
+        sch0 ++ TickPop :: mid ++ TickDecide true :: sch2
+   where, in the state after sch0, the loop was idle and not drained and the
+   request was at the head of the queue and passed the gate ([picks]); the loop
+   held it, and nothing else, during all of mid; so (C06_order_across_priorities
+   / C06_fifo_within_priority at that state) it had the smallest priority
+   number — with fix F-C06a strictly the smallest (priority, arrival) — among
+   all requests waiting at that moment. *)
+Theorem C06_admission_was_picked : forall c sch r,
+  In r (admits (run c init sch)) ->
+  exists sch0 mid sch2, sch = sch0 ++ TickPop :: mid ++ TickDecide true :: sch2 /\
+    let s0 := run c init sch0 in
+    picks s0 r /\ held s0 = None /\ drained s0 = false /\
+    (forall m1 m2, mid = m1 ++ m2 -> held (run c init (sch0 ++ TickPop :: m1)) = Some r) /\
+    (forall r', is_waiting s0 r' -> prio (info s0 r) <= prio (info s0 r')) /\
+    (keep_stamp (var c) = true -> forall r', is_waiting s0 r' -> r' <> r ->
+       lex_lt (prio (info s0 r)) (astamp (info s0 r)) (prio (info s0 r')) (astamp (info s0 r'))).
+Proof.
+  intros c sch r Hin.
+  destruct (admission_pick c init sch r InvB_init InvD_init Hin) as
+    (sch0 & mid & sch2 & E & Hp & Hh & Hd & Hall); [cbn; tauto|cbn; discriminate|].
+  exists sch0, mid, sch2. split; [exact E|]. cbn zeta.
+  split; [exact Hp|]. split; [exact Hh|]. split; [exact Hd|]. split; [exact Hall|]. split.
+  - intros r' Hw. apply (pick_prio c); [apply Inv_run|exact Hp|exact Hw].
+  - intros Hk r' Hw Hne. apply (pick_fifo c); [exact Hk|apply Inv_run|exact Hp|exact Hw|exact Hne].
+Qed.
+Print Assumptions C06_admission_was_picked.
+
+(* "A lower priority number is always admitted before a higher one", on traces:
+   if r and r' wait in the queue at the same time and r has the smaller priority
+   number, then in EVERY continuation in which r' is admitted, r has got its own
+   signal (admission, or time-out / drain) before — r' never overtakes r.
+   Every tree. *)
+Theorem C06_no_overtaking_priority : forall c sch r r' sch',
+  let s := run c init sch in
+  is_waiting s r -> is_waiting s r' -> prio (info s r) < prio (info s r') ->
+  In r' (admits (run c s sch')) ->
+  st (info (run c s sch') r) = Dn /\ 1 <= dones (info (run c s sch') r).
+Proof.
+  intros c sch r r' sch' s Hw Hw' Hlt Hin.
+  apply (no_overtaking_gen c s r r' sch' (Inv_run c sch) Hw Hw'); [left; exact Hlt|exact Hin].
+Qed.
+Print Assumptions C06_no_overtaking_priority.
+
+(* "... and, within one priority, earlier arrivals before later ones": the same
+   for the strict (priority, arrival stamp) order, with fix F-C06a. *)
+Theorem C06_no_overtaking_fifo : forall c sch r r' sch',
+  keep_stamp (var c) = true ->
+  let s := run c init sch in
+  is_waiting s r -> is_waiting s r' ->
+  lex_lt (prio (info s r)) (astamp (info s r)) (prio (info s r')) (astamp (info s r')) ->
+  In r' (admits (run c s sch')) ->
+  st (info (run c s sch') r) = Dn /\ 1 <= dones (info (run c s sch') r).
+Proof.
+  intros c sch r r' sch' Hk s Hw Hw' Hlt Hin.
+  apply (no_overtaking_gen c s r r' sch' (Inv_run c sch) Hw Hw'); [right; split; assumption|exact Hin].
+Qed.
+Print Assumptions C06_no_overtaking_fifo.
+
+Example C06_no_overtaking_ex :
+  let c := {| qmax := 3; smax := -1; ttl := 10; var := fixed |} in
+  let s := run c init [ArriveCheck 1 0 0; ArriveRegister 1; ArrivePush 1;
+                       ArriveCheck 2 0 5; ArriveRegister 2; ArrivePush 2] in
+  is_waiting s 1 /\ is_waiting s 2 /\
+  lex_lt (prio (info s 1)) (astamp (info s 1)) (prio (info s 2)) (astamp (info s 2)) /\
+  (* r1 refused once, then expired: r2 is admitted only after r1's time-out *)
+  let sch' := [TickPop; TickDecide false; TtlScan 11; TickPop; TickPop; TickDecide true] in
+  admits (run c s sch') = [2] /\ res (info (run c s sch') 1) = TimedOut.
+Proof. vm_compute. repeat split; auto. Qed.
+
+(* ================================================================ no early time-out *)
+
+(* A blocked verdict is either a rejection on arrival (such a request never has
+   a signal) or a time-out whose cause is in the schedule: a step of the TTL
+   watcher looking at the registered request at an instant AFTER its expiry, or
+   an effective drain ([times_out]).  No request is timed out before its
+   time-to-live except by shutdown.  Every tree. *)
+Theorem C06_blocked_only_after_expiry_or_drain : forall c sch r,
+  verdict (info (run c init sch) r) = Some false ->
+  dones (info (run c init sch) r) = 0 \/
+  exists sch1 a sch2, sch = sch1 ++ a :: sch2 /\ times_out (run c init sch1) a r.
+Proof.
+  intros c sch r H. destruct (InvVR_run c sch) as [_ HR].
+  destruct (R_false _ HR r H) as [H0|H0]; [now left|right]. apply timeout_origin. exact H0.
+Qed.
+Print Assumptions C06_blocked_only_after_expiry_or_drain.
+
+Example C06_blocked_ex :
+  let c := {| qmax := 1; smax := -1; ttl := 10; var := fixed |} in
+  let sch1 := [ArriveCheck 1 0 0; ArriveRegister 1; ArrivePush 1; ArriveCheck 2 0 0] in
+  let sch := sch1 ++ TtlScan 11 :: [WaiterReturn 1] in
+  verdict (info (run c init sch) 1) = Some false /\ times_out (run c init sch1) (TtlScan 11) 1 /\
+  verdict (info (run c init sch) 2) = Some false /\ dones (info (run c init sch) 2) = 0 /\
+  res (info (run c init (sch1 ++ [TtlScan 10])) 1) = Pending.
+Proof. vm_compute. repeat split; auto; lia. Qed.
+
+(* ================================================================ model vs suites vs code granularity *)
+
+(* Every state the correspondence interpreter ([hrun], suites forced and
+   histories) goes through is [run c init sch] for some schedule: the theorems
+   above speak about exactly the states on which model and implementation are
+   compared. *)
+Theorem C06_suite_states_are_reachable : forall c hdr groups ops,
+  let h0 := {| hs := init; hnow := 0; hgate := true; hpend := false |} in
+  exists sch, hs (hend c hdr groups h0 ops) = run c init sch.
+Proof. intros c hdr groups ops h0. apply reach_hend. apply reach_init. Qed.
+Print Assumptions C06_suite_states_are_reachable.
+
+(* [hrun] walks through [hend]: agreement on a case is agreement on every prefix *)
+Theorem C06_suite_walks_hend : forall c hdr groups ops1 ops2 h n,
+  hrun c hdr groups h n (ops1 ++ ops2) = None ->
+  hrun c hdr groups (hend c hdr groups h ops1) (n + N.of_nat (length ops1))%N ops2 = None.
+Proof. intros c hdr groups ops1 ops2 h n H. apply (hrun_agrees_prefix c hdr groups ops1 ops2 h n H). Qed.
+Print Assumptions C06_suite_walks_hend.
+
+(* the interpreter's loop body has enough fuel: it stops only when the loop
+   holds a request or the queue is empty (or after the drain) *)
+Theorem C06_pops_has_fuel : forall c s,
+  drained s = true \/ held (pops c s) <> None \/ heap (pops c s) = [].
+Proof. exact pops_done. Qed.
+Print Assumptions C06_pops_has_fuel.
+
+(* The shared-queue size test and the registration are NOT one critical section
+   in the code (queue.Size() under the queue's mutex, AddRequestIfBelow under the
+   watcher's): the value the test uses may be stale.  [orun] lets the
+   environment choose the outcome of that test freely at every registration
+   ([Some full]; [None] = the atomic reading).  The safety part of the property
+   holds on every such schedule of the fixed tree: it does not depend on that
+   atomicity. *)
+Theorem C06_safe_with_stale_shared_size : forall c l,
+  var c = fixed -> let s := orun c init l in
+  (forall r, dones (info s r) <= 1) /\
+  (forall r, verdict (info s r) = Some true -> In r (admits s)) /\
+  (forall r r', picks s r -> is_waiting s r' -> r' <> r ->
+     lex_lt (prio (info s r)) (astamp (info s r)) (prio (info s r')) (astamp (info s r'))) /\
+  count s = Z.of_nat (length (watch s)) /\ count s <= Z.max 0 (qmax c) /\
+  waiting s <= Z.max 0 (qmax c) /\
+  (drained s = true -> forall r, In r (watch s) -> dones (info s r) = 1).
+Proof.
+  intros c l Hv. apply safe_of_InvAll; try (rewrite Hv; reflexivity).
+  apply InvAll_orun; rewrite Hv; reflexivity.
+Qed.
+Print Assumptions C06_safe_with_stale_shared_size.
+
+Example C06_safe_with_stale_shared_size_ex :
+  (* shared size 1: r2's test read "not full" before r1 was pushed, r2 registers
+     after it — two entries in a shared queue of size 1 (advisory), local bound kept *)
+  let c := {| qmax := 3; smax := 1; ttl := 10; var := fixed |} in
+  let l := [(None, ArriveCheck 1 0 0); (None, ArriveRegister 1); (None, ArrivePush 1);
+            (None, ArriveCheck 2 0 0); (Some false, ArriveRegister 2); (None, ArrivePush 2);
+            (None, ArriveCheck 3 0 0); (None, ArriveRegister 3)] in
+  length (heap (orun c init l)) = 2%nat /\ count (orun c init l) = 2 /\
+  verdict (info (orun c init l) 3) = Some false /\
+  orun c init (map (fun a => (None, a)) [ArriveCheck 1 0 0]) = run c init [ArriveCheck 1 0 0].
+Proof. cbn zeta. repeat split; try apply orun_atomic; vm_compute; reflexivity. Qed.
+
+(* Trusted clock assumption made visible: stamps are readings of
+   time.Now().UnixNano() (wall clock); the model takes them strictly increasing.
+   The assumption is NEEDED: if a later Enqueue read a clock value below the
+   stamp of a request of the same priority already in the queue (clock stepped
+   back), the later arrival is served first. *)
+Example C06_fifo_needs_increasing_stamps :
+  let c := {| qmax := 3; smax := -1; ttl := 10; var := fixed |} in
+  let s := run c init [ArriveCheck 1 0 0; ArriveRegister 1; ArrivePush 1;
+                       ArriveCheck 2 0 0; ArriveRegister 2] in
+  (* the push of r2 with a clock reading t *)
+  let push_at t := {| info := upd (info s) 2 (pushed (info s 2) t);
+                      heap := hinsert (prio (info s 2), t, 2) (heap s); watch := watch s;
+                      count := count s; next_stamp := next_stamp s; held := held s;
+                      drained := drained s; checked := checked s; admits := admits s |} in
+  picks (push_at 1) 1 /\ picks (push_at (-1)) 2 /\ is_waiting (push_at (-1)) 1 /\
+  heap (arrive_push s 2) = heap (push_at (next_stamp s)) /\
+  info (arrive_push s 2) 2 = info (push_at (next_stamp s)) 2.
+Proof.
+  cbn zeta. split; [|split; [|split]].
+  - exists 0, 0, [(0, 1, 2)]. vm_compute. auto.
+  - exists 0, (-1), [(0, 0, 1)]. vm_compute. auto.
+  - vm_compute. auto.
+  - vm_compute. auto.
+Qed.
+
 (* ---------------------------------------------------------------- the full property *)
 
-(* exactly-one verdict  /\  allowed only when the quota admitted  /\  priority/FIFO
-   admission order  /\  |waiting| <= queue_size  /\  drain-safe (every registered
-   request ends the drain with exactly one signal, and after the drain nobody is
-   in the watch list without its signal)  /\  a TTL scan after expiry leaves
-   exactly one signal (unless the loop holds the request) — for all schedules of
-   the tree [v]. *)
+(* For all schedules [sch] of the tree [v], with s the state they lead to and
+   for all continuations:
+    1  at most one signal per request (the WaitGroup never goes negative: no crash)
+    2  allowed only when the quota admitted
+    3  strict (priority, arrival) order at every pick
+    4  |waiting| <= queue_size
+    5  an effective drain leaves every registered request with exactly one signal
+    6  after the drain nobody in the watch list lacks its signal
+    7  a TTL scan after expiry leaves exactly one signal unless the loop holds
+       the request at that moment (item 12 is the trace-level form without the
+       exception)
+    8  the counter is the number of registered requests and stays <= queue_size
+    9  a request has a verdict exactly when its Execute call has returned
+   10  a verdict, once given, never changes (exactly one verdict, literally)
+   11  a verdict is reachable from s for every request that has arrived — by the
+       TTL watcher and by the drain (nobody is stranded)
+   12  fairness => liveness: once a registered request is served (TTL watcher
+       after expiry while the loop does not hold it, or an effective drain) it
+       has exactly one signal for ever,
+   13  and, its own goroutine not being starved, its verdict
+   14  no overtaking: if r, r' wait together and r is before r' in (priority,
+       arrival) order, r' is admitted only after r has its signal
+   15  a blocked verdict is a rejection on arrival or a time-out caused by a
+       watcher step after the expiry or by the drain. *)
 Definition C06_full (v : variant) : Prop :=
   forall c, var c = v -> forall sch, let s := run c init sch in
     (forall r, dones (info s r) <= 1) /\
@@ -219,9 +645,26 @@ Definition C06_full (v : variant) : Prop :=
        forall r, In r (watch s) -> dones (info (step c s Drain) r) = 1) /\
     (drained s = true -> forall r, In r (watch s) -> dones (info s r) = 1) /\
     (forall now r, In r (watch s) -> expire (info s r) < now ->
-       dones (info (step c s (TtlScan now)) r) = 1 \/ held (step c s (TtlScan now)) = Some r).
+       dones (info (step c s (TtlScan now)) r) = 1 \/ held (step c s (TtlScan now)) = Some r) /\
+    (count s = Z.of_nat (length (watch s)) /\ count s <= Z.max 0 (qmax c)) /\
+    (forall r, verdict (info s r) <> None <-> (pc (info s r) = PReturned \/ pc (info s r) = PGone)) /\
+    (forall r b sch', verdict (info s r) = Some b -> verdict (info (run c s sch') r) = Some b) /\
+    (forall r b, pc (info s r) <> PNew ->
+       verdict (info (run c s (finish r (expire (info s r)) b)) r) <> None /\
+       verdict (info (run c s (finish_drain r b)) r) <> None) /\
+    (forall r sch1 a sch2, In r (watch s) -> serves (run c s sch1) a r = true ->
+       dones (info (run c s (sch1 ++ a :: sch2)) r) = 1) /\
+    (forall r sch1 a sch2 post, In r (watch s) -> serves (run c s sch1) a r = true ->
+       In (ArrivePush r) (sch1 ++ a :: sch2) \/ pushed_pc (info s r) ->
+       exists b, verdict (info (run c s ((sch1 ++ a :: sch2) ++ WaiterReturn r :: post)) r) = Some b) /\
+    (forall r r' sch', is_waiting s r -> is_waiting s r' ->
+       lex_lt (prio (info s r)) (astamp (info s r)) (prio (info s r')) (astamp (info s r')) ->
+       In r' (admits (run c s sch')) -> dones (info (run c s sch') r) = 1) /\
+    (forall r, verdict (info s r) = Some false ->
+       dones (info s r) = 0 \/
+       exists sch1 a sch2, sch = sch1 ++ a :: sch2 /\ times_out (run c init sch1) a r).
 
-(* The tree with the three fixes satisfies it. *)
+(* The tree with the four fixes satisfies it. *)
 Theorem C06_full_fixed : C06_full fixed.
 Proof.
   intros c Hv sch s.
@@ -235,7 +678,7 @@ Proof.
   split; [apply HE|]. split; [exact (D_verd _ HD)|].
   split; [intros r r'; apply (pick_fifo c); assumption|].
   split; [apply (C06_bound_when_arrival_atomic c sch), atomic_pre, Ha|].
-  split; [|split].
+  split; [|split; [|split]].
   - intros Hd Hh r Hw.
     destruct (C06_drain_releases_all c sch r Hd Hh Hw) as [_ H1]. fold s in H1.
     specialize (HE (sch ++ [Drain]) r). rewrite run_app in HE. cbn [run fold_left] in HE.
@@ -250,6 +693,20 @@ Proof.
     destruct (st (info (ttl_scan s now) r)) eqn:Est; [congruence| |].
     + right. apply HB1. exact Est.
     + left. pose proof (B_d1 _ HB1 r Est). lia.
+  - split; [|split; [|split; [|split; [|split; [|split; [|split]]]]]].
+    + destruct (C06_count_bound_when_slots_reserved c sch) as (H1 & H2 & _); [|split; assumption].
+      apply (trace_ok_weaken c (arrival_pre c)); [apply arrival_pre_slot_pre|apply atomic_pre, Ha].
+    + intros r. apply (C06_verdict_iff_returned c sch r).
+    + intros r b sch' H. unfold s. rewrite <- run_app. apply C06_verdict_written_once. exact H.
+    + intros r b Hp. split; [apply (C06_verdict_reachable c sch r b Hp)|].
+      apply (C06_verdict_reachable_by_drain c sch r b Hc Hp).
+    + intros r sch1 a sch2 Hw Hs.
+      destruct (C06_liveness_fair_signal c sch r sch1 a sch2 Hw Hs) as [_ H]. apply H, Hg.
+    + intros r sch1 a sch2 post Hw Hs Hp. apply (C06_liveness_fair_verdict c sch r sch1 a sch2 post Hw Hs Hp).
+    + intros r r' sch' Hw Hw' Hlt Hin.
+      destruct (C06_no_overtaking_fifo c sch r r' sch' Hk Hw Hw' Hlt Hin) as [_ H1].
+      specialize (HE (sch ++ sch') r). rewrite run_app in HE. unfold s in *. lia.
+    + intros r H. apply (C06_blocked_only_after_expiry_or_drain c sch r H).
 Qed.
 Print Assumptions C06_full_fixed.
 
@@ -304,8 +761,11 @@ Proof.
 Qed.
 Print Assumptions C06_full_refuted_without_fix_c.
 
-(* F-C06d: shutdown, then a request registers: the loop and the watcher are gone,
-   nobody will ever signal it. *)
+(* F-C06d: shutdown, then a request registers: in the code the loop and the
+   watcher goroutines have left (both return on the cancellation that causes the
+   drain), so nobody is left to signal it.  What is refuted here is the state
+   invariant 6 (after the drain nobody in the watch list lacks its signal); the
+   model still offers TtlScan as an action after Drain. *)
 Theorem C06_full_refuted_without_fix_d :
   ~ C06_full {| keep_stamp := true; atomic_reg := true; gated_drain := true; closed_after_drain := false |}.
 Proof.
